@@ -2114,6 +2114,10 @@ class TextQueryBackend(Backend):
                 ],
                 cond.source,
             )
+            if len(expanded) > 1 and not self.decide_convert_condition_as_in_expression(
+                expanded_cond, state
+            ):  # group OR-linked patterns because the expression can be part of an AND or NOT
+                return self.convert_condition_group(expanded_cond, state)
             return self.convert_condition(expanded_cond, state)
 
     def convert_condition_field_compare_op_val(
